@@ -391,10 +391,13 @@ JOIN_COMMENT_WITNESSES = [w(src, oracle="comments", sweep=(10, 120)) for src in 
 HUNG_PAREN_COMMENT_WITNESSES = [w('local xxxxxxxxxxxx = aaaaaaaaaaaaaaaa + ( --[[c]] bbbbbbbbbbbbbbbb) + cccccccccccccccccc\nlocal yyyy = aaaaaaaaaaaaaaaa .. ( --[[c]] bbbbbbbbbbbbbbbb) .. ( -- d\n cccccccccccccccccc)\nlocal zzzz = aaaaaaaaaaaaaaaa + -- e\n --[[f]] bbbbbbbbbbbbbbbb -- g\n + cccccccccccccccccc\n', oracle="comments", sweep=(10, 120))]
 RETURN_TYPE_COMMENT_WITNESSES = [w('local function foo(): number -- c\nend\nlocal f = function(): number --[[d]] end\nlocal function g(): number end\nfunction m.h(): (number, string) -- e\nend\n', oracle=o, syntax="luau", sweep=(10, 120)) for o in ("parse", "comments")]
 INTERPOLATED_TABLE_WITNESSES = [w('print(`a { {1} :: any } b { {2} } c { {3} == t } d { #{4} }`)\n', oracle="parse", syntax="luau")]
+# one call site of the D30 class, repaired (06a88b8, 144e8ae): a line comment behind `function` / behind the name of a local function
+FUNCTION_KEYWORD_COMMENT_WITNESSES = [w('local f, g = function -- x\n() end, h\nlocal function k -- y\n(a, b) return a end\nreturn function -- q\n(x) return x end\n', oracle=o, space_after_function_names=sp, sweep=(10, 120)) for o, sp in (("parse", "Never"), ("comments", "Never"), ("whitespace", "Always"))] + [
+    w('local v = function -- z\n<T>(a: T) return a end\n', oracle="parse", syntax="luau")]
 # D47 (open, known finding): full_moon accepts a parenthesised type pack where Luau wants a type; without the parentheses it does not parse
 TYPE_PACK_FINDINGS = [w('type A<T...> = (T...)\n', oracle="parse", syntax="luau"), w('local x: (T...) = 1\n', oracle="parse", syntax="luau"), w('type H<T...> = (T...) | nil\n', oracle="parse", syntax="luau")]
 WITNESSES = {
-    "C03.join_": JOIN_COMMENT_WITNESSES, "C01.collapsed_function_return_type": RETURN_TYPE_COMMENT_WITNESSES, "C03.hang_binop": HUNG_PAREN_COMMENT_WITNESSES,
+    "C01.function_body_below_comment": FUNCTION_KEYWORD_COMMENT_WITNESSES, "C10.no_space_behind_line_comment": FUNCTION_KEYWORD_COMMENT_WITNESSES[2:3], "C03.join_": JOIN_COMMENT_WITNESSES, "C01.collapsed_function_return_type": RETURN_TYPE_COMMENT_WITNESSES, "C03.hang_binop": HUNG_PAREN_COMMENT_WITNESSES,
     "C03.update_trivia_contract": FEATURE_SET_WITNESSES + C10_WITNESSES[:2], "C03.update_leading": C10_WITNESSES[:2], "C03.update_trailing": C10_WITNESSES[:2], "C03.token_": C10_WITNESSES[:2],
     "C03.span_proxy": C10_WITNESSES[:2], "C03.binop_proxy": FEATURE_SET_WITNESSES, "C03.list_update_loop": LIST_WITNESSES[:1],
     "C02.list_": LIST_WITNESSES, "C02.assignment": LIST_WITNESSES, "C02.local_assignment": LIST_WITNESSES + LOCAL_TYPES_WITNESSES, "C02.return_": RETURN_WITNESSES,
@@ -422,9 +425,9 @@ WITNESSES = {
     "C01.double_minus_guard": EXPR_WITNESSES[1:3],
 }
 
-C01_BOUNDED = RETURN_TYPE_COMMENT_WITNESSES[:1] + INTERPOLATED_TABLE_WITNESSES + TYPE_PACK_FINDINGS + HEADER_COMMENT_WITNESSES + D39_WITNESSES[:3] + LUAU_TYPE_FIX_WITNESSES[:1] + [x for x in COLLAPSE_WITNESSES if x["oracle"] == "comments"] + BRACKET_WITNESSES + REHANG_WITNESSES[1:] + BINOP_COMMENT_WITNESSES + CALL_COMMENT_WITNESSES[:1] + PARAM_COMMENT_WITNESSES + UNOP_COMMENT_WITNESSES + ARG_PAREN_COMMENT_WITNESSES + [LINE_SAFE_WITNESSES[i] for i in (0, 2, 4)] + LOCAL_COMMENT_WITNESSES + OPEN_COMMENT_FINDINGS + D30_FINDINGS
+C01_BOUNDED = FUNCTION_KEYWORD_COMMENT_WITNESSES[:1] + FUNCTION_KEYWORD_COMMENT_WITNESSES[3:] + RETURN_TYPE_COMMENT_WITNESSES[:1] + INTERPOLATED_TABLE_WITNESSES + TYPE_PACK_FINDINGS + HEADER_COMMENT_WITNESSES + D39_WITNESSES[:3] + LUAU_TYPE_FIX_WITNESSES[:1] + [x for x in COLLAPSE_WITNESSES if x["oracle"] == "comments"] + BRACKET_WITNESSES + REHANG_WITNESSES[1:] + BINOP_COMMENT_WITNESSES + CALL_COMMENT_WITNESSES[:1] + PARAM_COMMENT_WITNESSES + UNOP_COMMENT_WITNESSES + ARG_PAREN_COMMENT_WITNESSES + [LINE_SAFE_WITNESSES[i] for i in (0, 2, 4)] + LOCAL_COMMENT_WITNESSES + OPEN_COMMENT_FINDINGS + D30_FINDINGS
 C02_BOUNDED = LOCAL_TYPES_WITNESSES + COLLAPSE_LUAU_WITNESSES[:1] + TYPE_WITNESSES + LUAU_TYPE_FIX_WITNESSES[:1] + [x for x in COLLAPSE_WITNESSES if x["oracle"] == "tree"] + CALL_COMMENT_WITNESSES[1:] + [LINE_SAFE_WITNESSES[i] for i in (1, 3)] + ATTR_COMMENT_WITNESSES + D30_TREE_FINDINGS
-C03_BOUNDED = (JOIN_COMMENT_WITNESSES + HUNG_PAREN_COMMENT_WITNESSES + RETURN_TYPE_COMMENT_WITNESSES[1:] + D39_WITNESSES[3:] + LUAU_TYPE_FIX_WITNESSES[1:] + TABLE_COMMENT_WITNESSES + COND_COMMENT_WITNESSES + SEMI_COMMENT_WITNESSES + [x for x in COLLAPSE_WITNESSES if x["oracle"] == "comments"][:2]
+C03_BOUNDED = (FUNCTION_KEYWORD_COMMENT_WITNESSES[1:2] + JOIN_COMMENT_WITNESSES + HUNG_PAREN_COMMENT_WITNESSES + RETURN_TYPE_COMMENT_WITNESSES[1:] + D39_WITNESSES[3:] + LUAU_TYPE_FIX_WITNESSES[1:] + TABLE_COMMENT_WITNESSES + COND_COMMENT_WITNESSES + SEMI_COMMENT_WITNESSES + [x for x in COLLAPSE_WITNESSES if x["oracle"] == "comments"][:2]
                + PAREN_COMMENT_WITNESSES + REHANG_WITNESSES[:1] + SORT_COMMENT_WITNESSES + FIELD_COMMENT_WITNESSES + OPEN_C03_FINDINGS)
 def nest(n, open_, close): return "local v = " + "".join(open_ for _ in range(n)) + "1" + "".join(close for _ in range(n)) + "\n"
 TIME_WITNESSES = [dict(w(nest(24, "f({ ", " })"), oracle="parse"), time_limit=20), dict(w(nest(22, "f(", ")"), oracle="parse"), time_limit=20),
